@@ -57,3 +57,416 @@ def str_slice_ok(fx, eng, rows, site):
     if n == 0:
         return False, "site not found"
     return True, ""
+
+
+# =====================================================================================
+LEVEL = "other"
+EXPLANATION = (
+    "Trigger discipline and UTF-8 safety decided statically: (R15.1) every `str` range-index site of the crate has bounds that "
+    "are char boundaries by construction (0, len(), len_utf8 of the first char of a fresh chars() iterator, find/char_indices "
+    "offsets); (R15.2) Listeners::trigger_event has one production caller, set_versioned_value, where it is called iff the "
+    "entry was vacant or strictly older and the new status is not Deleted, with an event carrying the key, the new value and "
+    "the owning member's id; delete/delete_after_ttl cannot reach it; (R15.3) in InnerListeners::trigger_event the boxed "
+    "listeners of the empty prefix get the unstripped event, every other invocation is dominated by strip_key_prefix(prefix) "
+    "= Some with listeners and prefix from the same map entry and gets the stripped event, the loop is skipped for the empty "
+    "key, any early exit of the loop is implied by 'prefix > key' (evaluated over all strings up to length 3 of a multi-byte "
+    "alphabet), and for the recognised bound forms the scanned range [first char of key, key] contains every non-empty prefix "
+    "of the key (same enumeration); strip_key_prefix strips exactly the prefix; (R15.4) handle drop removes (prefix, id) "
+    "through the weak pointer, forever() disarms it, ids come from fetch_add; (R15.5) every copy a ClusterState creates or "
+    "resets carries the cluster's listener registry.")
+TRUSTED = ["BTreeMap::range / str::strip_prefix / starts_with semantics", "byte-order comparison of UTF-8 strings"]
+ASSUMPTIONS = ["listener callbacks themselves are user code"]
+
+LST = "listener::Listeners"
+INNER = "listener::InnerListeners"
+KCE = "KeyChangeEvent"
+ALPHABET = ["a", "b", "é", "\U0001d11e"]
+
+
+def all_strings(maxlen):
+    import itertools
+    out = [""]
+    for n in range(1, maxlen + 1):
+        for t in itertools.product(ALPHABET, repeat=n):
+            out.append("".join(t))
+    return out
+
+
+def run(ctx):
+    rep = ctx.report
+    fx = ctx.fx
+    roles = Roles(fx)
+    r15_1(ctx, rep)
+    r15_2(ctx, rep, roles)
+    r15_3(ctx, rep, roles)
+    r15_4(ctx, rep)
+    r15_5(ctx, rep, roles)
+
+
+def r15_1(ctx, rep):
+    r = rep.rule("R15.1", "no byte-offset slicing of user strings: every str range-index site uses char-boundary bounds")
+    fx = ctx.fx
+    n = 0
+    for fid in sorted(fx.fns):
+        if inv.is_derived(fx, fx.root_fn(fid)):
+            continue
+        for s in panics.fn_sites(fx, fid):
+            if s.kind == "call:index" and ("for str" in s.detail or "str>::index" in s.detail or "String" in s.detail and "Range" in s.detail):
+                n += 1
+                eng = sym.Engine(fx, inline_only=set())
+                try:
+                    rows = eng.table(fid)
+                    ok, why = str_slice_ok(fx, eng, rows, s)
+                except sym.Unanalysable as e:
+                    ok, why = False, "not analysable: %s" % e
+                owner = fx.fns[fx.root_fn(fid)].get("impl_self") or fid
+                rep.obligation(ok, "C15/R15.1/str-slice/%s/%s" % (fid, "const-offset" if "0..1" in why or "1" in why[:40] else "byte-offset"),
+                               "string slicing at %s: %s" % (s.key(), why), s.where(), sample="%s: bounds are char boundaries by construction" % s.key())
+    rep.count("str-slice-sites", n)
+    # positive example so that the rule cannot pass vacuously when there is no site: the verifier must reject a constant offset
+    class Fake:
+        line = -1
+    rep.obligation(boundary_amount(sym.Engine(fx), type("R", (), {"store": {}, "events": []})(), ("ptr", ("S", "s"), ()), sym.C(1))[0] is False,
+                   "C15/R15.1/self-test", "the char-boundary verifier accepts a constant byte offset 1", None, sample="self-test: offset 1 rejected")
+    rep.instance(n)
+
+
+def r15_2(ctx, rep, roles):
+    r = rep.rule("R15.2", "events fire exactly for accepted, non-deleted inserts")
+    fx = ctx.fx
+    cg = callgraph.CallGraph(fx)
+    trig = [f for f in fx.fns.values() if f.get("impl_self") == LST and (f.get("inputs") or [None])[0] == "&mut listener::Listeners" and len(f["inputs"]) == 2]
+    if len(trig) != 1:
+        raise AnchorLost("Listeners::trigger_event", "not found")
+    trig = trig[0]
+    svv = roles.set_versioned_value
+    for cs in cg.callers_of(trig["id"]):
+        rep.obligation(cs.caller == svv["id"], "C15/R15.2/trigger-caller/%s" % cs.caller, "Listeners::trigger_event is called from %s" % cs.caller,
+                       where(fx.fns[cs.caller], cs.line), sample="trigger_event called from set_versioned_value only")
+    eng = sym.Engine(fx, no_inline=kv.listener_fns(fx))
+    rows = eng.table(svv["id"], arg_terms={1: ("ptr", kv.SELF, ()), 2: ("obj", ("S", "key")), 3: ("obj", ("S", "upd"))})
+    UPDV = ("proj", ("obj", ("S", "upd")), F(VV, "version"))
+    n = 0
+    for row in rows:
+        if row.exit != "return":
+            continue
+        n += 1
+        info = kv.cond_info(row)
+        stored = bool(kv.vv_aggs(row)) or bool(kv.field_writes(row, VV, "version"))
+        st = info["status"]
+        deleted = st is not None and st[1] is True and st[0] == "Deleted"
+        known_status = st is not None and st[1] is True
+        fired = [e for e in row.calls() if e[1] == trig["id"]]
+        want = stored and known_status and not deleted
+        if stored and not known_status:
+            rep.obligation(not fired, "C15/R15.2/fires-without-status-check", "an event fires on a path that does not examine the new status", where(svv))
+            continue
+        rep.obligation(len(fired) == (1 if want else 0), "C15/R15.2/fire-rule",
+                       "stored=%s status=%s -> %d events" % (stored, st, len(fired)), where(svv),
+                       sample="stored=%s status=%s -> %d event" % (stored, st and st[0], 1 if want else 0))
+        for e in fired:
+            ev = T.resolve_locals(eng, row.store, e[2][1])
+            ok = ev[0] == "agg" and ev[1] == KCE
+            if ok:
+                k, v, nd = T.field(ev, "key"), T.field(ev, "value"), T.field(ev, "node")
+                ok = any(s == ("obj", ("S", "key")) for s in T.subterms(k)) and T.mentions_field(v, VV, "value") and any(
+                    s == ("obj", ("S", "upd")) or (s[0] == "ptr" and s[1] == ("S", "upd")) for s in T.subterms(v)) and T.mentions_field(nd, NS, "chitchat_id")
+            rep.obligation(ok, "C15/R15.2/event-content", "the event is %s" % sym.fmt(ev)[:120], where(svv), sample="event = (key, &update.value, &self.chitchat_id)")
+    rep.floor("set_versioned_value-rows", n, 5)
+    # deletes cannot reach the listeners
+    muts = kv.mutators(fx)
+    for nm in ("delete", "delete_after_ttl"):
+        reach = cg.reachable([muts[nm]["id"]])
+        rep.obligation(trig["id"] not in reach, "C15/R15.2/delete-notifies", "%s can reach the listeners" % nm, where(muts[nm]), sample="%s never notifies" % nm)
+    for nm in ("set", "set_with_ttl"):
+        reach = cg.reachable([muts[nm]["id"]])
+        rep.obligation(trig["id"] in reach, "C15/R15.2/set-silent", "%s no longer reaches the listeners" % nm, where(muts[nm]), sample="%s notifies through set_versioned_value" % nm)
+    rep.instance(n)
+
+
+def str_eval(t, asg):
+    """tiny interpreter for the str observers that occur in the listener code"""
+    k = t[0]
+    if t in asg:
+        return asg[t]
+    if k == "c":
+        return t[1]
+    if k == "call":
+        nm = sym.strip_all_generics(t[1]).split("::")[-1]
+        args = [str_eval(a, asg) for a in t[2]]
+        if nm in ("as_str", "deref", "as_ref", "borrow"):
+            return args[0]
+        if nm == "len":
+            return len(args[0].encode("utf-8"))
+        if nm == "is_empty":
+            return len(args[0]) == 0
+        if nm == "starts_with":
+            return args[0].startswith(args[1])
+        raise oe.NeedAtom(t)
+    if k == "op":
+        a, b = str_eval(t[2], asg), str_eval(t[3], asg)
+        if isinstance(a, str) and isinstance(b, str):
+            a, b = a.encode("utf-8"), b.encode("utf-8")
+        return sym.concrete_binop(t[1], a, b)
+    if k == "un" and t[1] == "Not":
+        return not str_eval(t[2], asg)
+    if k == "ptr" and t[1][0] == "D":
+        return str_eval(t[1][1], asg)
+    if k == "obj" and t[1][0] == "D":
+        return str_eval(t[1][1], asg)
+    raise oe.NeedAtom(t)
+
+
+def r15_3(ctx, rep, roles):
+    r = rep.rule("R15.3", "who is called: empty-prefix listeners with the full key; others only after strip_key_prefix(prefix) = Some, with "
+                          "the stripped event; early exits implied by prefix > key; scanned range contains every prefix")
+    fx = ctx.fx
+    te = [f for f in fx.fns.values() if f.get("impl_self") == INNER and (f.get("inputs") or [None])[0] == "&listener::InnerListeners" and len(f["inputs"]) == 2]
+    if len(te) != 1:
+        raise AnchorLost("InnerListeners::trigger_event", "not found")
+    te = te[0]
+    rep.anchor("InnerListeners::trigger_event", where(te))
+    strip = [f for f in fx.fns.values() if (f.get("impl_self") or "").startswith(KCE) and f.get("output", "").startswith("std::option::Option<KeyChangeEvent")]
+    if len(strip) != 1:
+        raise AnchorLost("strip_key_prefix", "not found")
+    strip = strip[0]
+    eng = sym.Engine(fx, no_inline={strip["id"]}, inline_only=set())
+    rows = eng.table(te["id"], arg_terms={1: ("ptr", ("S", "self"), ()), 2: ("obj", ("S", "ev"))})
+    KEY = ("proj", ("obj", ("S", "ev")), F(KCE, "key"))
+    n_inv = 0
+    empty_ok = loop_ok = 0
+    breaks = []
+    for row in rows:
+        evs = row.events
+        for i, e in enumerate(evs):
+            if e[0] != "call":
+                continue
+            if not ("ops::Fn" in e[1] and e[1].endswith("::call") and "Box" in e[1]):
+                continue
+            n_inv += 1
+            arg = T.resolve_locals(eng, row.store, e[2][1])
+            payload = T.field(arg, "0") if arg[0] == "agg" else arg
+            listeners_src = T.resolve_locals(eng, row.store, e[2][0])
+            if payload == ("obj", ("S", "ev")):
+                # unstripped event: must come from the "" entry
+                gets = [s for s in T.subterms(listeners_src) if s[0] == "call" and sym.strip_all_generics(s[1]).split("::")[-1] == "get"]
+                ok = any(any(x == sym.C("") for x in T.subterms(g)) for g in gets)
+                empty_ok += 1 if ok else 0
+                rep.obligation(ok, "C15/R15.3/unstripped-event", "a listener that is not registered under the empty prefix receives the unstripped key",
+                               where(te, e[3][1]), sample="empty-prefix listeners: full key")
+            else:
+                # stripped: payload is the Some-payload of strip_key_prefix(&event, prefix_key) with listeners of the same entry
+                sk = [s for s in T.subterms(payload) if s[0] == "call" and s[1] == strip["id"]]
+                ok = bool(sk) and any(c[0] == "variant" and c[3] and c[2] == "Some" and T.resolve_locals(eng, row.store, c[1]) == sk[0] for c in row.cond)
+                if ok:
+                    pref = T.resolve_locals(eng, row.store, sk[0][2][1])
+                    items_l = [s for s in T.subterms(listeners_src) if s[0] == "proj" and s[2] == F("<tuple>", "1")]
+                    items_p = [s for s in T.subterms(pref) if s[0] == "proj" and s[2] == F("<tuple>", "0")]
+                    def item_id(t):
+                        nx = [x for x in T.subterms(t) if x[0] == "call" and x[1].endswith("::next") and "Range" in x[1] and not x[1].startswith("havoc:")]
+                        return (nx[0][1], nx[0][3]) if nx else None
+                    ok = bool(items_l) and bool(items_p) and item_id(items_l[0][1]) is not None and item_id(items_l[0][1]) == item_id(items_p[0][1])
+                    ok = ok and sk[0][2][0] in (("ptr", ("S", "ev"), ()), ("obj", ("S", "ev"))) or ok and any(x == ("obj", ("S", "ev")) for x in T.subterms(T.resolve_locals(eng, row.store, sk[0][2][0])))
+                loop_ok += 1 if ok else 0
+                rep.obligation(ok, "C15/R15.3/stripped-event", "a prefix listener is invoked without a successful strip of its own prefix from the key",
+                               where(te, e[3][1]), sample="prefix listeners: strip_key_prefix(entry.prefix) = Some, entry.listeners, stripped event")
+    rep.floor("listener-invocations", n_inv, 2)
+    # empty key: no range scan
+    for row in rows:
+        emp = [c for c in row.cond if c[0] == "truth" and c[1][0] == "call" and c[1][1].endswith("is_empty") and c[2] is True]
+        if emp:
+            scans = [e for e in row.calls() if sym.strip_all_generics(e[1]).endswith("BTreeMap::range")]
+            rep.obligation(not scans and row.exit == "return", "C15/R15.3/empty-key-scan", "the prefix range is scanned for the empty key", where(te),
+                           sample="empty key: only the empty-prefix listeners")
+    # early exits of the scan loop
+    strs = all_strings(2)
+    n_eval = 0
+    for row in rows:
+        if row.exit != "return":
+            continue
+        # rows that return from inside the loop (iterator yielded Some) with a condition on the iterated prefix
+        it_some = [c for c in row.cond if c[0] == "variant" and c[3] and c[2] == "Some" and c[1][0] == "call" and "Range" in c[1][1] and c[1][1].endswith("::next")]
+        if not it_some:
+            continue
+        item = sym.proj(sym.proj(it_some[-1][1], ("v", "Some")), F(sym.OPTION, "0"))
+        PREF = ("obj", ("D", sym.proj(item, F("<tuple>", "0"))))
+        last = row.cond[-1]
+        if last[0] != "truth":
+            rep.obligation(False, "C15/R15.3/early-exit-form", "the scan loop is left early on an opaque condition", where(te))
+            continue
+        bad = None
+        for p in strs:
+            for k_ in strs:
+                if not k_:
+                    continue
+                asg = {PREF: p, KEY: k_, ("ptr", ("D", sym.proj(item, F("<tuple>", "0"))), ()): p, ("obj", ("D", KEY)): k_, ("ptr", ("D", KEY), ()): k_}
+                n_eval += 1
+                try:
+                    val = bool(str_eval(last[1], asg)) == last[2]
+                except oe.NeedAtom as ex:
+                    bad = bad or "early-exit condition depends on %s" % sym.fmt(ex.atom)[:80]
+                    break
+                if val and not p.encode() > k_.encode():
+                    bad = bad or "the scan stops at registered prefix %r for key %r although later entries can still match" % (p, k_)
+            if bad:
+                break
+        breaks.append(bad)
+        rep.obligation(bad is None, "C15/R15.3/early-exit", "early exit of the prefix scan: %s" % bad, where(te), evaluations=n_eval,
+                       sample="early exit only when prefix > key (all strings up to length 2 over a,b,é,𝄞)")
+    # range bounds
+    for row in rows:
+        for e in row.calls():
+            if sym.strip_all_generics(e[1]).endswith("BTreeMap::range"):
+                rng = T.resolve_locals(eng, row.store, e[2][1])
+                if rng[0] != "agg":
+                    continue
+                lo, hi = T.field(rng, "0"), T.field(rng, "1")
+                lo_kind = lo[2] if lo[0] == "agg" else None
+                hi_kind = hi[2] if hi[0] == "agg" else None
+                hi_ok = hi_kind == "Unbounded" or (hi_kind == "Included" and any(s == KEY for s in T.subterms(hi)))
+                lo_form = None
+                if lo_kind in ("Included",):
+                    inner = lo[3][0][1]
+                    idx = [s for s in T.subterms(inner) if s[0] == "call" and "for str" in s[1]]
+                    if idx:
+                        r2 = T.resolve_locals(eng, row.store, idx[0][2][1])
+                        end = T.field(r2, "end") if r2[0] == "agg" else None
+                        if end is not None:
+                            okb, how = boundary_amount(eng, row, idx[0][2][0], end)
+                            if okb and how == "len_utf8(first char)":
+                                lo_form = "first-char"
+                    elif any(s == KEY for s in T.subterms(inner)):
+                        lo_form = "key"
+                elif lo_kind == "Unbounded":
+                    lo_form = "unbounded"
+                if lo_form in ("first-char", "unbounded") and hi_ok:
+                    bad = None
+                    cnt = 0
+                    for k_ in all_strings(3):
+                        if not k_:
+                            continue
+                        lo_v = k_[0].encode() if lo_form == "first-char" else b""
+                        for j in range(1, len(k_) + 1):
+                            p = k_[:j].encode()
+                            cnt += 1
+                            if not (lo_v <= p <= k_.encode()):
+                                bad = bad or (k_, k_[:j])
+                    rep.obligation(bad is None, "C15/R15.3/range-completeness", "prefix %r of key %r lies outside the scanned range" % (bad[1], bad[0]) if bad else "",
+                                   where(te, e[3][1]), evaluations=cnt, sample="range [first char, key] contains all %d (key, prefix) pairs up to length 3" % cnt)
+                elif lo_form == "key":
+                    rep.obligation(False, "C15/R15.3/range-lower-bound", "the scan starts at the key itself: shorter prefixes are skipped", where(te, e[3][1]))
+                else:
+                    rep.note("range bound form not recognised (lower=%s upper=%s): completeness of the scan is not decided" % (lo_kind, hi_kind))
+                break
+    # strip_key_prefix itself
+    eng2 = sym.Engine(fx)
+    for row in eng2.table(strip["id"], arg_terms={1: ("ptr", ("S", "ev"), ()), 2: ("ptr", ("S", "prefix"), ())}):
+        if row.exit != "return":
+            continue
+        sp = [c for c in row.cond if c[0] == "variant" and c[3] and c[1][0] == "call" and c[1][1].endswith("strip_prefix")]
+        if not sp:
+            rep.obligation(False, "C15/R15.3/strip-shape", "strip_key_prefix does not use str::strip_prefix", where(strip))
+            continue
+        call = sp[0][1]
+        ok_args = T.mentions_field(call[2][0], KCE, "key") and any(s == ("obj", ("S", "prefix")) or (s[0] == "ptr" and s[1] == ("S", "prefix")) for s in T.subterms(call[2][1]))
+        if sp[0][2] == "Some":
+            t = row.ret
+            ev = t[3][0][1] if sym.is_some(t) else None
+            ok = ev is not None and ev[0] == "agg" and any(s == call for s in T.subterms(T.field(ev, "key"))) and T.mentions_field(T.field(ev, "value"), KCE, "value") \
+                and T.mentions_field(T.field(ev, "node"), KCE, "node")
+            rep.obligation(ok and ok_args, "C15/R15.3/strip-result", "strip_key_prefix returns %s" % sym.fmt(t)[:100], where(strip),
+                           sample="strip_key_prefix = Some{key: key.strip_prefix(prefix), value, node}")
+        else:
+            rep.obligation(sym.is_none(row.ret) and ok_args, "C15/R15.3/strip-none", "strip_key_prefix returns %s when the prefix does not match" % sym.fmt(row.ret)[:60], where(strip),
+                           sample="no match -> None")
+    rep.instance(n_inv)
+
+
+def r15_4(ctx, rep):
+    r = rep.rule("R15.4", "handles: drop removes (prefix, id) through the weak pointer; forever() disarms; ids from fetch_add")
+    fx = ctx.fx
+    LH = "listener::ListenerHandle"
+    dr = [f for f in fx.fns.values() if f.get("impl_self") == LH and f.get("impl_trait") == "std::ops::Drop"]
+    fv = [f for f in fx.fns.values() if f.get("impl_self") == LH and not f.get("impl_trait") and f.get("inputs") == [LH]]
+    rm = [f for f in fx.fns.values() if f.get("impl_self") == INNER and f.get("inputs") == ["&mut listener::InnerListeners", "&str", "usize"]]
+    if not (len(dr) == 1 and len(fv) == 1 and len(rm) == 1):
+        raise AnchorLost("listener handle", "Drop/forever/remove_listener not found (%d/%d/%d)" % (len(dr), len(fv), len(rm)))
+    eng = sym.Engine(fx, no_inline={rm[0]["id"]})
+    n = 0
+    for row in eng.table(dr[0]["id"], arg_terms={1: ("ptr", ("S", "self"), ())}):
+        up = None
+        for c in row.cond:
+            if c[0] == "variant" and c[3] and c[1][0] == "call" and c[1][1].endswith("::upgrade"):
+                up = c[2]
+        rms = [e for e in row.calls() if e[1] == rm[0]["id"]]
+        n += 1
+        if up == "Some":
+            ok = len(rms) == 1 and T.mentions_field(rms[0][2][1], LH, "prefix") and T.last_field(rms[0][2][2]) == (LH, "listener_id")
+            rep.obligation(ok, "C15/R15.4/drop-removes", "dropping a live handle does not remove (prefix, id)", where(dr[0]), sample="drop: remove_listener(prefix, id)")
+        else:
+            rep.obligation(not rms, "C15/R15.4/drop-dangling", "a disarmed handle still removes", where(dr[0]), sample="dangling weak: nothing removed")
+    eng2 = sym.Engine(fx)
+    for row in eng2.table(fv[0]["id"], arg_terms={1: ("obj", ("S", "self"))}):
+        ws = [e for e in row.events if e[0] in ("write", "lwrite") and e[2] and e[2][-1] == F(LH, "listeners")]
+        ok = len(ws) == 1 and ws[0][3][0] == "call" and "Weak" in ws[0][3][1] and ws[0][3][1].endswith("::new")
+        forgotten = [e for e in row.calls() if e[1].endswith("mem::forget") or "ManuallyDrop" in e[1]]
+        ok = ok or bool(forgotten)
+        rep.obligation(ok, "C15/R15.4/forever", "forever() does not replace the weak pointer by a dangling one", where(fv[0]), sample="forever: listeners = Weak::new()")
+    # remove_listener removes exactly (prefix, id)
+    eng3 = sym.Engine(fx)
+    for row in eng3.table(rm[0]["id"], arg_terms={1: ("ptr", ("S", "self"), ()), 2: ("ptr", ("S", "prefix"), ()), 3: ("obj", ("S", "idx"))}):
+        rs = [e for e in row.calls() if sym.strip_all_generics(e[1]).endswith("HashMap::remove")]
+        gm = [e for e in row.calls() if sym.strip_all_generics(e[1]).endswith("BTreeMap::get_mut")]
+        if rs:
+            ok = bool(gm) and any(s == ("obj", ("S", "idx")) or (s[0] == "ptr" and T.resolve_locals(eng3, row.store, s) == ("obj", ("S", "idx"))) for s in T.subterms(T.resolve_locals(eng3, row.store, rs[0][2][1]))) \
+                and any(s[0] in ("ptr", "obj") and s[1] == ("S", "prefix") for s in T.subterms(gm[0][2][1]))
+            rep.obligation(ok, "C15/R15.4/remove-key", "remove_listener does not remove exactly (prefix, id)", where(rm[0]), sample="remove_listener: listeners[prefix].remove(id)")
+    # ids from fetch_add(1)
+    sub = [f for f in fx.fns.values() if f.get("impl_self") == LST and f.get("output") == LH and len(f.get("inputs", [])) == 3 and f["inputs"][1] == "std::string::String"]
+    for f in sub:
+        eng4 = sym.Engine(fx, inline_only=set())
+        for row in eng4.table(f["id"]):
+            if row.exit != "return" or row.ret is None or row.ret[0] != "agg":
+                continue
+            lid = T.resolve_locals(eng4, row.store, T.field(row.ret, "listener_id"))
+            ok = lid[0] == "call" and lid[1].endswith("fetch_add")
+            rep.obligation(ok, "C15/R15.4/id-source", "listener ids come from %s" % sym.fmt(lid)[:60], where(f), sample="id = listener_idx.fetch_add(1)")
+            sube = [e for e in row.calls() if e[1].endswith("InnerListeners::subscribe_event")]
+            if sube:
+                rep.obligation(T.resolve_locals(eng4, row.store, sube[0][2][2]) == lid, "C15/R15.4/id-registered", "the registered id differs from the handle's id", where(f),
+                               sample="same id registered and returned")
+    rep.instance(n)
+
+
+def r15_5(ctx, rep, roles):
+    r = rep.rule("R15.5", "every member copy created or reset by the cluster state carries the cluster's listener registry")
+    fx = ctx.fx
+    new = [f for f in fx.methods_of(NS) if f.get("output") == NS and f.get("inputs") == ["types::ChitchatId", LST]]
+    if len(new) != 1:
+        raise AnchorLost("NodeState::new", "constructor (id, listeners) not found")
+    new = new[0]
+    cg = callgraph.CallGraph(fx)
+    n = 0
+    for cs in cg.callers_of(new["id"]):
+        n += 1
+        caller = fx.fns[cs.caller]
+        eng = sym.Engine(fx, no_inline={new["id"]}, inline_only=set())
+        ok = False
+        for row in eng.table(cs.caller):
+            for e in row.calls():
+                if e[1] == new["id"]:
+                    ls = T.resolve_locals(eng, row.store, e[2][1])
+                    ok = T.mentions_field(ls, NS, "listeners") or T.mentions_field(ls, "state::ClusterState", "listeners")
+        rep.obligation(ok, "C15/R15.5/listeners-lost/%s" % cs.caller, "%s builds a member copy that is not attached to the listener registry" % cs.caller,
+                       where(caller, cs.line), sample="%s: NodeState::new(.., listeners.clone())" % cs.caller.split("::")[-1])
+    rep.floor("constructor-call-sites", n, 2)
+    eng = sym.Engine(fx)
+    for row in eng.table(new["id"], arg_terms={1: ("obj", ("S", "id")), 2: ("obj", ("S", "ls"))}):
+        if row.exit == "return":
+            rep.obligation(row.ret[0] == "agg" and T.field(row.ret, "listeners") == ("obj", ("S", "ls")), "C15/R15.5/constructor", "NodeState::new drops its listeners argument",
+                           where(new), sample="NodeState::new stores the listeners argument")
+    # clone of Listeners shares the registry (derived Clone on an Arc field) — checked by type: field `inner` is an Arc
+    adt = fx.adts.get(LST)
+    ok = adt is not None and any(f["name"] == "inner" and f["ty"].startswith("std::sync::Arc<") for f in adt["variants"][0]["fields"])
+    rep.obligation(ok, "C15/R15.5/shared-registry", "Listeners is no longer a shared (Arc) handle", None, sample="Listeners { inner: Arc<..> }")
+    rep.instance(n)
